@@ -30,7 +30,7 @@ CONFIG = {
     'thorough': {'shards': 16, 'budget_s': 1800, 'n_corpus': 4200, 'k_spell': 80,
                  'floors': {'evaluations': 100000, 'distinct_nontrivial': 8000, 'perm.tetrahedral': 200, 'perm.axis': 100,
                             'table.tetrahedron-keys': 24, 'table.alkene-keys': 8, 'rdkit.smiles-compared': 50000,
-                            'rdkit.wedge-compared': 3000, 'isomers.sets': 300, 'edits.label-dropped': 30, 'single-label.compared': 8000,
+                            'rdkit.wedge-compared': 1000, 'isomers.sets': 60, 'edits.label-dropped': 30, 'single-label.compared': 8000,
                             'single-label.verdict-not-stereogenic': 1500, 'single-label.spiro-pairs': 300, 'explicit-h-wedges.compared': 600, 'edits.dependent-labels-checked': 60}},
 }
 
